@@ -375,6 +375,8 @@ def fmt(t, maxlen=400):
             return repr(t[1])
         if h == "var":
             return t[1]
+        if h == "mfield":
+            return "m." + t[1]
         if h in ("variant", "const", "def"):
             return short(t[1])
         if h == "field":
